@@ -70,7 +70,11 @@ Clause(m, ev) ==
     [] ev.k = "hook" /\ ev.name = "server_disconnected" ->
          IF Rec(m, ev.c).disc > 0 THEN <<"C09.server_disconnected_twice">> ELSE <<>>
     [] ev.k = "sock_open" ->
-         IF OpenTo(m.socks \cup {<<ev.s, ev.a>>}, ev.a) > K THEN <<"C09.too_many_open">> ELSE <<>>
+         IF OpenTo(m.socks \cup {<<ev.s, ev.a>>}, ev.a) > K
+           THEN <<"C09.too_many_open",   \* signature: is a socket counted whose task died in a cancelled hook (a leaked socket)?
+                  IF \E i \in 1..Len(m.conn) : m.conn[i][2].ok > 0 /\ m.conn[i][2].disc = 0 /\ m.conn[i][2].cancelled # ""
+                  THEN "counting_socket_leaked_by_cancelled_hook" ELSE "no_leak", m.factory>>
+         ELSE <<>>
     [] ev.k = "end" -> EndClause(m, ev)
     [] OTHER -> <<>>
 
